@@ -1,9 +1,10 @@
 """C13 regions, bounds, inside, pad_region, scatter_points, project_region, maxabs."""
 import random
 import numpy as np
-from . import core
+from . import core, pylite_tie
 from .core import Case, cZ, cD, clist, cbool
 
+obligations = pylite_tie.coord_obligations   # source-regenerated tie (see harness/pylite_tie.py)
 ID = "C13"
 PROPS_FILE = "Props/C13.v"
 IMPORTS = "From Verde Require Import Model.Coordinates Model.CoordCases."
